@@ -173,6 +173,7 @@ type scenCfg struct {
 	Inhibit bool
 	AltNoIv bool  // every other reload takes the mute / active intervals off the routes (and the next puts them back)
 	AGC     int64 // the provider's alert GC interval in ms (0: never within a scenario)
+	Maint   int64 // the dispatcher's maintenance interval in ms (0: not stated)
 }
 
 // event is the data of the "cfg" event: the configuration as the observer specification takes it.
@@ -190,7 +191,7 @@ func (c scenCfg) event(windows []inst.Window, wait, maxwait int64) map[string]an
 	return map[string]any{
 		"root": routeCfg{Sel: "ALL", Recv: "r1", GBy: "g", T: c.T}.rec("{}"), "routes": routes,
 		"integs": c.allIntegs(c.Integs), "inhibit": c.Inhibit, "rt": int64(resolveTimeout / time.Millisecond),
-		"windows": windows, "wait": wait, "maxwait": maxwait, "agc": c.AGC,
+		"windows": windows, "wait": wait, "maxwait": maxwait, "agc": c.AGC, "maint": c.Maint,
 	}
 }
 
@@ -350,7 +351,7 @@ type envEvent struct {
 }
 
 func genScenario(rng *rand.Rand) (scenCfg, []envEvent, []inst.Window, time.Duration) {
-	cfg := scenCfg{T: timerSets[rng.Intn(len(timerSets))], Inhibit: rng.Intn(3) == 0, AGC: int64(30 * time.Minute / time.Millisecond)}
+	cfg := scenCfg{T: timerSets[rng.Intn(len(timerSets))], Inhibit: rng.Intn(3) == 0, AGC: int64(30 * time.Minute / time.Millisecond), Maint: 30000}
 	switch rng.Intn(6) {
 	case 0:
 		cfg.Integs = mkIntegs([]string{"webhook"}, []bool{rng.Intn(2) == 0})
